@@ -123,7 +123,7 @@ func bridge(g *GraphSpec, id int) bool {
 
 func (e Engine) Shrink(x any, stillFails func(any) bool) any {
 	c := x.(*Case)
-	if atomic.AddInt32(&shrunk, 1) > 6 {
+	if c.Typed != nil || atomic.AddInt32(&shrunk, 1) > 6 {
 		return c
 	}
 	deadline := time.Now().Add(4 * time.Second)
